@@ -464,8 +464,10 @@ def read_progress(fn):
         return None
 
 
-def run_isolated(w, binary, engine, shard, shards, args, timeout, tag):
-    """One child under a watchdog with a progress file. Returns (report|None, crashinfo|None)."""
+def run_isolated(w, binary, engine, shard, shards, args, timeout, tag, stall=25):
+    """One child under a watchdog with a progress file. The watchdog is on progress:
+    a child whose progress record does not change for `stall` seconds is taken to
+    be stuck on that case (plus an overall deadline). Returns (report|None, crashinfo|None)."""
     o = w.p('zzout', '%s-%s-%d.json' % (engine, tag, shard))
     lg = w.p('zzout', '%s-%s-%d.log' % (engine, tag, shard))
     pg = w.p('zzout', '%s-%s-%d.progress' % (engine, tag, shard))
@@ -475,15 +477,36 @@ def run_isolated(w, binary, engine, shard, shards, args, timeout, tag):
     e = dict(GOENV)
     e['GOMAXPROCS'] = '2'
     e['GOTRACEBACK'] = 'single'
-    cmd = ['timeout', '-s', 'QUIT', '-k', '20', str(timeout), binary, '-engine', engine, '-seed', str(w.seed), '-tier', w.tier,
+    cmd = [binary, '-engine', engine, '-seed', str(w.seed), '-tier', w.tier,
            '-shard', '%d/%d' % (shard, shards), '-out', o, '-progress', pg, *args]
+    timed_out = False
     with open(lg, 'wb') as lf:
-        rc = subprocess.call(cmd, cwd=w.dir, env=e, stdout=lf, stderr=subprocess.STDOUT)
-    if rc == 0 and os.path.exists(o):
+        p = subprocess.Popen(cmd, cwd=w.dir, env=e, stdout=lf, stderr=subprocess.STDOUT)
+        t0 = time.time()
+        last, last_t = None, time.time()
+        while True:
+            try:
+                rc = p.wait(timeout=1.0)
+                break
+            except subprocess.TimeoutExpired:
+                pass
+            cur = read_progress(pg)
+            now = time.time()
+            if cur != last:
+                last, last_t = cur, now
+            if now - last_t > stall or now - t0 > timeout:
+                timed_out = True
+                p.send_signal(3)  # SIGQUIT: goroutine dump into the log
+                try:
+                    rc = p.wait(timeout=15)
+                except subprocess.TimeoutExpired:
+                    p.kill()
+                    rc = p.wait()
+                break
+    if rc == 0 and os.path.exists(o) and not timed_out:
         return json.load(open(o)), None
-    tail = open(lg, 'rb').read()
-    head = tail[:3000].decode('utf-8', 'replace')
-    return None, dict(rc=rc, progress=read_progress(pg), log=head, timed_out=(rc in (124, 131, 137)))
+    head = open(lg, 'rb').read()[:3000].decode('utf-8', 'replace')
+    return None, dict(rc=rc, progress=read_progress(pg), log=head, timed_out=timed_out)
 
 
 def check_total(prop, tier, seed, repo, keep):
@@ -515,12 +538,13 @@ def check_total(prop, tier, seed, repo, keep):
                 tname = types[pr[0]] if 0 <= pr[0] < len(types) else '?'
                 case = pr[1]
                 # re-run the single case alone with a generous deadline
-                rep1, crash1 = run_isolated(w, bins['plain'], 'total', 0, 1, ['-types', '^' + re.escape(tname) + '$', '-arg', 'only=%d' % case], 300, 'solo')
+                rep1, crash1 = run_isolated(w, bins['plain'], 'total', 0, 1, ['-types', '^' + re.escape(tname) + '$', '-arg', 'only=%d' % case], 600, 'solo%d' % i, stall=60)
                 if rep1 is None:
                     kind = 'hang' if crash1['timed_out'] else 'fatal'
                     viol.append(dict(prop='C06', key='total/%s' % kind, type=tname,
-                                     detail='isolated child %s on case %d of type %s (exit %s):\n%s' % ('timed out (300 s, single small input)' if kind == 'hang' else 'died', case, tname, crash1['rc'], crash1['log'][:1500]),
+                                     detail='isolated child %s on case %d of type %s (exit %s):\n%s' % ('made no progress for 60 s on a single small input' if kind == 'hang' else 'died', case, tname, crash1['rc'], crash1['log'][:1500]),
                                      replay=dict(engine='total', type=tname, seed=seed, index=case)))
+                    return None, viol  # one confirmed fatal/hang decides the run; do not spend the budget on more
                 else:
                     inconclusive['child-died-but-case-passes-alone'] = inconclusive.get('child-died-but-case-passes-alone', 0) + 1
                 skip.append('%s:%d' % (tname, case))
@@ -528,14 +552,14 @@ def check_total(prop, tier, seed, repo, keep):
 
         with cf.ThreadPoolExecutor(max_workers=shards) as ex:
             res = list(ex.map(shard_job, range(shards)))
-        reps = [r for r, _ in res]
+        reps = [r for r, _ in res if r is not None]
         for _, v in res:
             extra_viol += v
         # depth probes (shared children; the deepest probe alone in its own children)
         dreps = []
         for depths, tag in (('100;5000;11000;20000;100000', 'd1'), ('1000000', 'd2')):
             def djob(i, depths=depths, tag=tag):
-                rep, crash = run_isolated(w, bins['plain'], 'depth', i, 4, ['-arg', 'depths=' + depths], 1200, tag)
+                rep, crash = run_isolated(w, bins['plain'], 'depth', i, 4, ['-arg', 'depths=' + depths], 1200, tag, stall=150)
                 if rep is not None:
                     return rep, []
                 return None, [dict(prop='C06', key='total/depth/fatal', type='(shard %d)' % i,
